@@ -20,6 +20,7 @@ RULE = (
     "variables equal the trial values of the converged iterate; otherwise ValueError and bit-unchanged state "
     "variables. family 'solve': generated sparse systems / partitions against a dense solve. Non-trivial: >= 2 "
     "iterations or the raise path."
+    " family 'scalar': Laplace problems with one unknown per point on meshes carrying 0-3 cell-less points anywhere in the numbering; 'solve' re-uses every second partitioned system for two more load cases."
 )
 ASSUMPTIONS = [
     "condensed body: the independently settled residual may differ from the solver's linearised-J residual by O(|du_last|^2): bound widened by 50 bulk |du_last|^2",
